@@ -71,7 +71,7 @@ func (fe *FnExec) execInstr(fr *frame, st *State, in ssa.Instruction) {
 		if p.Cell != nil {
 			fe.regs[x] = PtrV{Cell: p.Cell, Path: append(append([]int(nil), p.Path...), x.Field), Pointee: f.Type()}
 		} else {
-			fe.regs[x] = PtrV{Base: p.Base, Prefix: p.Prefix + "." + f.Name(), Pointee: f.Type()}
+			fe.regs[x] = PtrV{Base: p.Base, Prefix: p.Prefix + "." + f.Name(), Pointee: f.Type(), Interior: true}
 		}
 	case *ssa.Field:
 		sv := fe.val(x.X)
@@ -209,6 +209,7 @@ func (fe *FnExec) doAlloc(st *State, x *ssa.Alloc) {
 		fe.allocN++
 		ref := fe.fresh("obj."+typeName(et), "Int")
 		fe.assume(tEq(ref, sx("+", "HW", tInt(int64(fe.allocN)))), "fresh object id")
+		fe.typedRef(ref, et)
 		p := PtrV{Base: ref, Prefix: typeName(et), Pointee: et}
 		fe.regs[x] = p
 		fe.storeHeap(st, p.Prefix, ref, et, fe.zeroVal(et))
